@@ -11,6 +11,12 @@ CLAIMED = {
  "C15": dict(design="6/C15", technique="Coq proof (induction + vm_compute finite table checks) + differential correspondence vs extracted model, spec and x/net",
    text="Seven theorems about the Gallina model of huffman.go hold for ALL byte strings: tables = RFC 7541 App. B and canonical/complete/prefix-free, encode = spec, decode accepts exactly spec encodings (strict padding/EOS), round-trip, totality, output bound. The model is re-tied to the code on every run (tables regenerated from the built package; HuffmanEncode/HuffmanDecode vs extracted model vs extracted spec vs x/net on ~28k inputs).",
    note=TB + "Modelled not verified: Go semantics of huffman.go (hand translation, uint8/uint32/uint64 wrap written out)."),
+ "C03": dict(design="6/C03", technique="Coq proof (refinement of an RFC 7541 spec decoder, induction over block histories, split invariance) + differential correspondence vs extracted model, spec and x/net",
+   text="Thirteen theorems over the model of hpack.go's decoder (readInt, readString, peek, addDynamic/shrink, nextField incl. the server's frame-by-frame loop): for all blocks and table states the decoder accepts exactly what the RFC 7541 spec decoder accepts and yields the same ordered (name, value, sensitive) triples and the same table; same over whole connection histories; HEADERS/CONTINUATION split at any byte does not change the result; the spec decodes everything its own encoder (all representation choices) emits; never panics, each step consumes input, output bounded. Correspondence: ~6.4k decoder histories/frames/malformed inputs per run vs extracted model, extracted spec and x/net.",
+   note=TB + "Modelled not verified: Go semantics of hpack.go (uint32/uint64/int conversions written out). Statement bound: block_small (2*len b + 2*max settings + 64 < 2^32). Spec integer limit: at most 9 continuation octets (RFC 7541 5.1 allows an implementation limit)."),
+ "C04": dict(design="6/C04", technique="Coq proof (per-field lemma + invariant over encoder histories: decoder table = abs(encoder table)) + differential correspondence incl. x/net decoding of emitted bytes",
+   text="Eight theorems over the model of hpack.go's encoder (appendInt, appendString, search, AppendHeader, SetMaxTableSize): for every history of SetMaxTableSize / field(name, value, store, sensitive) / block boundaries and both Disable* flags, the spec decoder turns the emitted blocks back into exactly the same fields, its table equals the encoder's after every block with a field, the table never exceeds the peer's limit, size changes (smallest then final) are announced at the start of the next block, sensitive fields are never-indexed literals and not stored; integers/strings equal the RFC encoding; never panics. Correspondence: ~3.3k encoder histories per run, emitted bytes also decoded by x/net.",
+   note=TB + "Modelled not verified: Go semantics of hpack.go. C04_search_sound needs the Go slice-length bound (dynamic table length < 2^63), proved necessary by C04_search_sound_needs_bound."),
  "C05": dict(design="6/C05", technique="Coq proof (spec_write/spec_parse inverse, model read/write = spec for all frames) + differential correspondence vs x/net Framer",
    text="Ten theorems over the model of frameHeader.go, frame.go, the ten frame files and http2utils: for all well-formed frames of the 10 types reading yields the view and consumes 9+len (reserved bits ignored, padding stripped); for all publicly buildable frame values, flags, stream ids and pad lengths the bytes written equal the RFC 7540 layout and parse back; writing twice is idempotent; SETTINGS carry the accessor state. Correspondence: ~143k read/write cases vs extracted model, extracted spec and x/net Framer.",
    note=TB + "Modelled not verified: Go semantics of the frame files; bufio.Reader as a byte list; AddPadding's random pad length is an oracle input read from the observed output. Forwarding a SETTINGS frame re-encodes state (C05_forward_faithful_refuted, outside the property's statement)."),
